@@ -557,9 +557,26 @@ def scale_returned(ctx: Ctx):
                 continue
             # only the divisions that produce singular vectors: numerator mentions eigenvectors / the matrix
             n += 1
-            got = _resolve_at(den, st, f.node, depth=1)
+
+            def strip(e):
+                while isinstance(e, ast.Call) and _cn(e) in ("reshape", "transpose", "copy") and e.args:
+                    e = e.args[0]
+                return e
+
             want = _resolve_at(ast.Name(id=s_ret, ctx=ast.Load()), st, f.node, depth=1)
-            ok = den.id == s_ret or ast.dump(got) == ast.dump(want)
+            got, ok = den, False
+            for _ in range(4):  # through named temporaries (`S_row = reshape(S, (1, -1))`), one definition at a time
+                if isinstance(got, ast.Name) and got.id == s_ret:
+                    ok = True
+                    break
+                nxt = strip(_resolve_at(got, st, f.node, depth=1)) if isinstance(got, ast.Name) else got
+                if ast.dump(nxt) == ast.dump(want):
+                    ok = True
+                    break
+                if not isinstance(nxt, ast.Name) or (isinstance(got, ast.Name) and nxt.id == got.id):
+                    got = nxt
+                    break
+                got = nxt
             res.instance("SCALE-RETURNED", f"symeig_svd: / {src(d.right)[:40]}", sample={"divisor": src(got)[:80], "returned_S": src(want)[:80], "ok": ok})
             if not ok:
                 ctx.finding("SCALE-RETURNED", f, d, f"symeig_svd divides by `{src(d.right)[:50]}` = `{src(got)[:80]}` but returns the singular values `{s_ret}` = `{src(want)[:80]}`: where the two differ (singular values below sqrt(eps)) the component of U diag(S) V is scaled by their ratio, so the decomposition no longer reproduces the matrix (and tensor_train / tensor_ring built on it are not exact at full rank)", construct=f"symeig_svd: divisor {src(got)[:40]} is not the returned S")
@@ -629,6 +646,12 @@ def reorth_each_step(ctx: Ctx):
                 return max(k) + 1
             return None
 
+        def merge(other):
+            for k in set(env) | set(other):
+                a, b = env.get(k), other.get(k)
+                ints = [x for x in (a, b) if isinstance(x, int)]
+                env[k] = max(ints) if ints else (a if a == b else None)
+
         def run(block):
             for st in block:
                 if isinstance(st, ast.Assign) and len(st.targets) == 1:
@@ -653,7 +676,26 @@ def reorth_each_step(ctx: Ctx):
                                     env[x.id] = None
                 elif isinstance(st, ast.Expr):
                     state(st.value)
-                elif isinstance(st, (ast.If, ast.For, ast.While, ast.With, ast.Try)):
+                elif isinstance(st, (ast.For, ast.While)):
+                    # an inner loop (over the two operators, say): zero, one or more passes -- states only grow,
+                    # two passes reach the fixed point of "products since the last qr" for a straight body
+                    before = dict(env)
+                    if isinstance(st, ast.For):
+                        for x in ast.walk(st.target):
+                            if isinstance(x, ast.Name):
+                                env[x.id] = None  # an operator / index, not a sample
+                    run(st.body)
+                    run(st.body)
+                    merge(before)
+                elif isinstance(st, ast.If):
+                    before = dict(env)
+                    run(st.body)
+                    after_body = dict(env)
+                    env.clear()
+                    env.update(before)
+                    run(st.orelse)
+                    merge(after_body)
+                elif isinstance(st, (ast.With, ast.Try)):
                     raise AnalysisError("REORTH-EACH-STEP: the power-iteration loop of randomized_range_finder has nested control flow the rule does not follow; cannot decide")
 
         run(lp.body)
